@@ -189,6 +189,13 @@ IntsViol(r) ==
            \cup (IF r[14] = 0 /\ ~HasPanic(r) THEN {} ELSE {<<"C18", "ints">>})
       [] r[1] = 9 ->                 \* consts: [9,cfg,T,MIN,MAX,default]
            (IF r[4] = 0 /\ r[5] = MaxOf(T) /\ r[6] = 0 THEN {} ELSE Both("min-max-default"))
+      [] r[1] = 10 ->                \* new_unchecked within its contract: [10,cfg,T,v,res,al]
+           (IF InRange(T, r[5]) THEN {} ELSE {<<"C04", "out-of-range-value">>})
+           \cup (IF r[5] = r[4] THEN {} ELSE {<<"C05", "new_unchecked-value">>})
+           \cup (IF r[6] = 0 /\ r[5] # -2 THEN {} ELSE {<<"C18", "ints">>})
+      [] r[1] = 11 ->                \* formatting with flags / width / Debug: [11,cfg,T,v,spec,al,n,c1..cn]
+           \* C18: "formatting of the integer types" neither allocates nor panics, whatever the format spec
+           (IF r[6] = 0 THEN {} ELSE {<<"C18", "ints-format">>})
 
 (****************************** table `factory` ****************************)
 (* r = [ctor, impl, a1, a2, a3, a4, pan, al, result...]; shorthand ctor = 30 + named ctor *)
